@@ -1,6 +1,7 @@
 package verifsim
 
 import (
+	"os"
 	"context"
 	"encoding/json"
 	"errors"
@@ -23,6 +24,8 @@ import (
 
 // Package controller wiring (C16, C14 chunking + slice GC, C09 propagation): the real
 // GenericPackageController with the real PackageDeployer; only the image puller is scripted.
+
+var debugRender = os.Getenv("VERIF_DEBUG_RENDER") != ""
 
 type fixture struct {
 	Class string // valid | loadError | objectInvalid | configInvalid | constraintUnmet | pullError
@@ -108,6 +111,15 @@ func Fixtures() map[string]fixture {
 	}
 }
 
+// AllFixtures adds the slice-name collision images (not part of the random image pool).
+func AllFixtures() map[string]fixture {
+	m := Fixtures()
+	for k, v := range collideFixtures() {
+		m[k] = v
+	}
+	return m
+}
+
 type scriptedPuller struct {
 	w *World
 }
@@ -173,7 +185,7 @@ func (w *World) classWithConfig(image, class string, m map[string]any) string {
 
 func (w *World) buildPackageController() {
 	if w.Images == nil {
-		w.Images = Fixtures()
+		w.Images = AllFixtures()
 	}
 	c := pkgctrl.NewPackageController(w.Client, w.Uncached, logr.Discard(), w.Scheme, scriptedPuller{w}, nil, nil, nil)
 	c.SetEnvironment(&manifests.PackageEnvironment{Kubernetes: manifests.PackageEnvironmentKubernetes{Version: "v1.28.0"}})
@@ -224,9 +236,29 @@ func (w *World) expectedTemplate(pkgKey Key) ([][]string, bool) {
 	if !ok || w.classWithConfig(p.Spec.Image, fx.Class, m) != "valid" {
 		return nil, false
 	}
+	spec, ok := renderPackageSpec(&p, fx)
+	if !ok {
+		return nil, false
+	}
+	var out [][]string
+	for _, ph := range spec.Phases {
+		row := []string{ph.Name}
+		for _, o := range ph.Objects {
+			row = append(row, objKeyOf(o.Object.Object, NS)+"#"+shortHash(o.Object.Object))
+		}
+		out = append(out, row)
+	}
+	return out, true
+}
+
+// renderPackageSpec is the reference render: the package pipeline called directly on a Package spec.
+func renderPackageSpec(p *corev1alpha1.Package, fx fixture) (*corev1alpha1.ObjectSetTemplateSpec, bool) {
 	ctx := context.Background()
 	pkg, err := packages.DefaultStructuralLoader.LoadComponent(ctx, (&packages.RawPackage{Files: fx.Files}).DeepCopy(), p.Spec.Component)
 	if err != nil {
+		if debugRender {
+			fmt.Println("load:", err)
+		}
 		return nil, false
 	}
 	cfg := map[string]any{}
@@ -234,6 +266,9 @@ func (w *World) expectedTemplate(pkgKey Key) ([][]string, bool) {
 		_ = json.Unmarshal(p.Spec.Config.Raw, &cfg)
 	}
 	if _, err := packages.AdmitPackageConfiguration(ctx, cfg, pkg.Manifest, nil); err != nil {
+		if debugRender {
+			fmt.Println("admit:", err)
+		}
 		return nil, false
 	}
 	tctx := packages.PackageRenderContext{
@@ -244,18 +279,13 @@ func (w *World) expectedTemplate(pkgKey Key) ([][]string, bool) {
 	}
 	inst, err := packages.RenderPackageInstance(ctx, pkg, tctx, packages.DefaultPackageValidators, packages.DefaultObjectValidators)
 	if err != nil {
+		if debugRender {
+			fmt.Println("render:", err)
+		}
 		return nil, false
 	}
 	spec := packages.RenderObjectSetTemplateSpec(inst)
-	var out [][]string
-	for _, ph := range spec.Phases {
-		row := []string{ph.Name}
-		for _, o := range ph.Objects {
-			row = append(row, objKeyOf(o.Object.Object, NS)+"#"+shortHash(o.Object.Object))
-		}
-		out = append(out, row)
-	}
-	return out, true
+	return &spec, true
 }
 
 // actualTemplate decodes the stored ObjectDeployment template, slices inlined in order.
@@ -302,6 +332,9 @@ func (w *World) NotePackage(p *Pass) {
 			"passErr": p.Err != nil, "pulled": p.Pulled}})
 }
 
+// configPools: scenarios that pin the image and draw config edits from their own pool.
+var configPools = map[string][]map[string]any{}
+
 func packageScenarios() []Scenario {
 	mk := func(name, image string, cfg map[string]any, ann map[string]string) Scenario {
 		return Scenario{Name: name, Setup: func(w *World) {
@@ -324,9 +357,31 @@ func packageScenarios() []Scenario {
 	}
 }
 
+// collideScenarios (C14): sliced packages whose slice contents collide in the FNV32 slice name.
+func collideScenarios() []Scenario {
+	ensureCollision()
+	each := map[string]string{"packages.package-operator.run/chunking-strategy": "EachObject"}
+	mk := func(name, image string, cfg map[string]any) Scenario {
+		return Scenario{Name: name, Setup: func(w *World) {
+			p := NewPackage("p1", image, cfg)
+			p.Annotations = each
+			w.EnvCreate(p)
+		}}
+	}
+	configPools["pkg-collide-update"] = []map[string]any{{"idx": collideA}, {"idx": collideB}, {"idx": "7"}}
+	configPools["pkg-collide-pair"] = []map[string]any{nil}
+	return []Scenario{
+		mk("pkg-collide-update", collideImage, map[string]any{"idx": collideA}),
+		mk("pkg-collide-pair", collidePairImage, nil),
+	}
+}
+
 func init() {
 	extraDrivers["package-walk"] = func(w *World, _ *flag.FlagSet, a driverArgs) int {
 		scs := packageScenarios()
+		if a.profile == "collide" {
+			scs = collideScenarios()
+		}
 		images := make([]string, 0)
 		for k := range Fixtures() {
 			images = append(images, k)
@@ -354,12 +409,15 @@ func init() {
 				switch {
 				case r < 8:
 					// user edits the Package spec
-					switch rng.Intn(4) {
-					case 0, 1:
+					pool, pinned := configPools[sc.Name]
+					switch c := rng.Intn(4); {
+					case pinned && c < 3:
+						w.EnvSetPackageConfig(KPK("p1"), pool[rng.Intn(len(pool))])
+					case c < 2:
 						w.EnvSetPackageImage(KPK("p1"), images[rng.Intn(len(images))])
-					case 2:
+					case c == 2:
 						w.EnvSetPackageConfig(KPK("p1"), []map[string]any{nil, {"size": 7}, {"size": "notanumber"}}[rng.Intn(3)])
-					case 3:
+					default:
 						m := w.Store.Snapshot(KPK("p1"))
 						paused, _ := nestedMap(m, "spec")["paused"].(bool)
 						w.EnvSetPaused(KPK("p1"), !paused)
